@@ -3,7 +3,7 @@
    The writer's token delimiters (Paths_gen.resultpath_delims) are regenerated from
    state_engine_paths.py on every run; the rest of Model/Paths.v is tied by the
    differential correspondence of harness/check_C12.py. *)
-From LSF Require Import PyStr Json GenTypes Paths_gen PathSpec Paths PathProofs PathRenderProofs.
+From LSF Require Import PyStr Json GenTypes Paths_gen PathSpec Paths PathProofs PathRenderProofs Pins_Paths_gen.
 Open Scope string_scope.
 
 (* '$' selects the whole input; a null path selects {} *)
